@@ -135,8 +135,24 @@ func (e *Engine) Discard(op string, d *Desc) {
 			if pan {
 				e.fail(Failure{Violation: true, Sig: n.kind + "-reverthead-panics-when-commit-fails", What: fmt.Sprint(err)})
 			} else if !errors.Is(err, errDropped) {
-				unexpected(n, fmt.Sprintf("RevertHead with a dropped commit returned %v", err))
-				real[n.kind] = errClass(err)
+				// RevertHead refused before reaching the commit: fine if that is what the real revert of
+				// this head does too (a known cause, reported when the history really reverts it)
+				c := errClass(err)
+				head := e.g.Head()
+				prev := lib.NewAbsState()
+				if h := e.g.Height(); h >= 2 {
+					prev = e.g.States[h-2]
+				}
+				switch {
+				case c == "err:class-missing" && n.kind == "legacy" && listedTwice(head.SU.StateDiff):
+					real[n.kind] = c
+					e.hit("op:discarded:revert-dropped:refused-before-the-commit")
+				case c == "root" && (declaresRegisteredSierra(prev, head.SU.StateDiff) || (e.emptied && n.kind == "legacy")):
+					e.hit("op:discarded:revert-dropped:refused-before-the-commit")
+				default:
+					unexpected(n, fmt.Sprintf("RevertHead with a dropped commit returned %v", err))
+					real[n.kind] = c
+				}
 			} else {
 				real[n.kind] = "ok" // everything but the commit happened
 			}
@@ -311,9 +327,13 @@ type heldReader struct {
 	hash    felt.Felt
 	created int // number of steps when it was opened
 	reader  core.StateReader
+	long    bool // kept until its block is reverted
 }
 
-const maxHeld = 9
+const (
+	maxHeld     = 9
+	maxLongHeld = 3
+)
 
 // hold keeps the readers of the newest block (the ones created "at the head": where a reader
 // could wrongly take a head shortcut) and the head reader, FIFO per node.
@@ -326,9 +346,27 @@ func (e *Engine) hold(n *node, vs []view) {
 		e.held[n.name] = append(e.held[n.name], &heldReader{node: n, label: v.label, n: v.n,
 			hash: *e.g.Bundles[v.n].Block.Hash, created: len(e.steps), reader: v.reader})
 	}
-	if k := len(e.held[n.name]); k > maxHeld {
-		e.held[n.name] = e.held[n.name][k-maxHeld:]
+	// FIFO of maxHeld short-lived readers; now and then the one that falls out is kept for the rest
+	// of its block's life (long-lived: re-queried after every later operation, maxLongHeld a node)
+	var longs, shorts []*heldReader
+	for _, hr := range e.held[n.name] {
+		if hr.long {
+			longs = append(longs, hr)
+		} else {
+			shorts = append(shorts, hr)
+		}
 	}
+	if k := len(shorts); k > maxHeld {
+		for _, hr := range shorts[:k-maxHeld] {
+			if len(longs) < maxLongHeld && (len(e.steps)+hr.n)%3 == 0 {
+				hr.long = true
+				longs = append(longs, hr)
+				e.hit("held:kept-long-lived")
+			}
+		}
+		shorts = shorts[k-maxHeld:]
+	}
+	e.held[n.name] = append(longs, shorts...)
 }
 
 // recheckHeld re-queries the readers held from earlier steps.
@@ -342,7 +380,14 @@ func (e *Engine) recheckHeld(n *node, qs []query) {
 		}
 		// is its block still on the chain?
 		if hr.n >= h || !e.g.Bundles[hr.n].Block.Hash.Equal(&hr.hash) {
-			e.hit("held:dropped-after-its-block-was-reverted")
+			// its block is gone: what it answers is not specified, but it must not panic
+			for _, q := range qs {
+				if got := readOne(hr.reader, q); got == "panic" {
+					e.fail(Failure{Violation: true, Sig: n.kind + "-held-" + hr.label + "-reader-panics-after-its-block-was-reverted",
+						What: fmt.Sprintf("%s backend: a %s reader of block %d, used after the block was reverted, panics on a %s query", n.kind, hr.label, hr.n, q.Kind)})
+				}
+			}
+			e.hit("held:queried-once-after-its-block-was-reverted")
 			continue
 		}
 		keep = append(keep, hr)
@@ -383,6 +428,9 @@ func (e *Engine) recheckHeld(n *node, qs []query) {
 				want = append(append([]string{}, want...), e.expectedOn(n, cur, q, true)...)
 			}
 			e.stats["held:read:"+hr.label]++
+			if age := len(e.steps) - hr.created; age > 8 {
+				e.stats["held:read:older-than-8-operations"]++
+			}
 			if contains(want, got) {
 				continue
 			}
